@@ -578,12 +578,31 @@ func ValidatorGuard(p *load.Prog, r *oblig.Report, rule string) {
 		})
 		return found
 	}
-	var allowed, forbidden []string
+	// the converse: an error that parseRelation itself constructs (not one handed on from a callee) is returned only
+	// when the guard fails — an expressible relation is never turned down
+	ownError := func(occ int, first bool) bool {
+		found := false
+		ei := returnsError(fn)
+		explore(fn, occ, first, func(t *ssa.Return, _, _ *ssa.BasicBlock) {
+			if ei >= 0 && ei < len(t.Results) {
+				if call, ok := t.Results[ei].(*ssa.Call); ok {
+					if cal := call.Common().StaticCallee(); cal != nil && cal.Pkg != nil && load.IsRepoPkg(cal.Pkg.Pkg) && load.ShortPkg(cal.Pkg.Pkg) == "errors" {
+						found = true
+					}
+				}
+			}
+		})
+		return found
+	}
+	var allowed, forbidden, overRejected []string
 	for _, occ := range []int{0, 1, 2} {
 		for _, first := range []bool{true, false} {
 			desc := fmt.Sprintf("occurrences=%s,isFirstPosition=%v", []string{"0", "1", ">1"}[occ], first)
 			ok := reach(occ, first)
 			legal := occ == 0 || (occ == 1 && first)
+			if legal && ownError(occ, first) {
+				overRejected = append(overRejected, desc)
+			}
 			switch {
 			case ok && !legal:
 				forbidden = append(forbidden, desc)
@@ -597,6 +616,8 @@ func ValidatorGuard(p *load.Prog, r *oblig.Report, rule string) {
 		r.Bad(rule, construct, p.Pos(fn.Pos()), "isFirstPosition is asked about "+wrongArg+", not about the relation's own rewrite: the position of the direct assignment inside this relation is not what is checked")
 	case len(forbidden) > 0:
 		r.Bad(rule, construct, p.Pos(fn.Pos()), "the DSL text of a relation can be returned when {"+strings.Join(forbidden, " | ")+"}; required: occurrences()==0, or occurrences()==1 and isFirstPosition(<the relation's own rewrite>): otherwise a second or misplaced direct assignment is printed as different DSL instead of the nesting error")
+	case len(overRejected) > 0:
+		r.Bad(rule, construct, p.Pos(fn.Pos()), "parseRelation can return an error it constructs itself when {"+strings.Join(overRejected, " | ")+"}, i.e. for a relation whose single direct assignment is (or can be placed) first: conversion must succeed exactly for those; an expressible relation is turned down")
 	case len(allowed) == 0:
 		r.Unknown(rule, construct, p.Pos(fn.Pos()), "no successful return with text is reachable under any valuation of the guard")
 	default:
@@ -1200,6 +1221,11 @@ func rewriteOrigin(v ssa.Value, target *ssa.FieldAddr) (string, string) {
 		if x.Op == token.MUL {
 			pth := AccessPath(x.X)
 			if strings.HasSuffix(pth, "currentRelation.Rewrites") && structNameOf(target.X.Type()) == "stackRelation" {
+				return "hand-over-to-stack", ""
+			}
+			// the same hand-over inside a helper that receives the relation being parsed as a parameter
+			if fa, ok := x.X.(*ssa.FieldAddr); ok && structNameOf(target.X.Type()) == "stackRelation" &&
+				structNameOf(fa.X.Type()) == "relation" && fieldNameOf(fa.X.Type(), fa.Field) == "Rewrites" {
 				return "hand-over-to-stack", ""
 			}
 			return "", "the list held by " + pth
